@@ -10,7 +10,7 @@ RULE = (
     "lines == the non-blank rows in order (an unbalanced quote must not swallow the next record); (headers) every header row of 1..3 "
     "unique grammar-expressible names x every data row length 1..len+1: '@n = #name' and '@i = #index' read the same cell, and on a "
     "short row both read absent with no error; non-trivial = the file contains a character that needs quoting or a ragged row; "
-    "state = (dialect, row shape)"
+    "state = (dialect, file, records consumed)"
 )
 BOUNDS = {
     "quick": "5,220 single-record files x 8 dialects; 3,249 two-record files x 8 dialects; 85 header rows x 4 data lengths",
@@ -111,7 +111,7 @@ def run_case(case):
                 bad("header names != cleaned cells of the first non-blank record", list(p.headers or []), wh, cstr)
             if p.errors:
                 bad("errors", run.errors_of(p), [], cstr)
-        states = [run.h64((d, q, tuple(len(r) for r in rows), _needs_quote(rows, d, q)))]
+        states = [run.h64((d, q, rows, k)) for k in range(len(rows) + 1)]  # reader state after each record of this file/dialect
         return {"viol": viol, "states": states, "transitions": len(rows), "nontrivial": _needs_quote(rows, d, q), "outcome": run.h64((want,)), "fingerprint": run.h64((cstr, [v["diverge"] for v in viol]))}
     if kind == "group":
         from mcx import groups
